@@ -23,7 +23,16 @@ package prelude
 // encoding/binary: big-endian decoding is a function of the 8 bytes.
 //@ spec func be64(b []byte) int
 //@ assume func encoding/binary.bigEndian.Uint64
+//@   requires [needs-eight-bytes] len(arg0) >= 8
 //@   ensures result == @be64(arg0)
+//@ spec func le64(b []byte) int
+//@ assume func encoding/binary.littleEndian.Uint64
+//@   requires [needs-eight-bytes] len(arg0) >= 8
+//@   ensures result == @le64(arg0)
+//@ assume func encoding/binary.bigEndian.Uint32
+//@   requires [needs-four-bytes] len(arg0) >= 4
+//@ assume func encoding/binary.littleEndian.Uint32
+//@   requires [needs-four-bytes] len(arg0) >= 4
 
 //@ assume func golang.org/x/exp/slices.Contains
 //@   ensures result <==> (exists i int :: 0 <= i && i < len(arg0) && arg0[i] == arg1)
